@@ -281,9 +281,14 @@ def process_block(kind, header, dirs, report):
         fname = newname or name
     else:
         start_after = parts[3].startswith('after ')
-        impl_rx, name, srx, erx = parts[1], parts[2], parse_rx(parts[3][6:] if start_after else parts[3]), parse_rx(parts[4])
+        sspec = parts[3][6:] if start_after else parts[3]
+        mo = re.match(r'^(/.*/)\s+#(\d+)\s*$', sspec)
+        start_nth = int(mo.group(2)) if mo else None
+        if mo:
+            sspec = mo.group(1)
+        impl_rx, name, srx, erx = parts[1], parts[2], parse_rx(sspec), parse_rx(parts[4])
         excl = len(parts) > 5 and parts[5] == 'exclusive'
-        a, b = find_range(src, m, impl_rx, name, srx, erx, excl, start_after)
+        a, b = find_range(src, m, impl_rx, name, srx, erx, excl, start_after, start_nth)
         entry.update(anchor=f'{impl_rx} :: fn {name} :: /{srx}/../{erx}/', src_lines=[line_of(src, a), line_of(src, b)])
         body = src[a:b]
         entry['sha256'] = hashlib.sha256(body.encode()).hexdigest()[:16]
